@@ -82,7 +82,7 @@ inductive OperandCfg where
   | numEnum (code : Option (Nat × CodePos × List (Int × Int))) (arg : Option (ArgCfg × List (Int × Int)))
   | enumeration (code : Option (Nat × CodePos × List (String × Int))) (arg : ArgCfg) (argDict : List (String × Int))
   | register (r : String) (code : Option CodeCfg) (decoPre decoPost : String)
-  | indReg (r : String) (code : Option CodeCfg) (offset : Option ArgCfg)
+  | indReg (r : String) (code : Option CodeCfg) (offset : Option ArgCfg) (decoPre decoPost : String)
   | indNum (code : Option CodeCfg) (arg : ArgCfg)
   | defNum (code : Option CodeCfg) (arg : ArgCfg)
   | idxReg (r : String) (code : Option CodeCfg) (idx : List (String × IdxCfg))
@@ -202,6 +202,42 @@ def compositeCode (rc : Option CodeCfg) (ic : Option FieldSpec) (pos : CodePos) 
   | none => some ({ e := .num rv, kind := .plain, size := rn, align := false, little := false }, pos)
   | some i => some ({ i with pre := some (rv, rn), align := false, little := false }, pos)
 
+/-- `IndirectRegisterOperand.parse_operand` on the text between the brackets: the register alone, or
+    the register followed by a sign and an offset expression -/
+def acceptIndReg (regs : List String) (id r : String) (code : Option CodeCfg) (off : Option ArgCfg) (e : E) :
+    Acc ParsedOp :=
+  match e with
+  | .label s =>
+    if eqIgnoreCase s r then
+      .ok { id := id, code := code.map codeField,
+            arg := off.map fun a => argField a (.num 0) .plain }
+    else .decline
+  | .bin o (.label s) rest =>
+    if (o == .add || o == .sub) && eqIgnoreCase s r then
+      match off with
+      | none => .hard       -- "An offset was provided … when none was expected"
+      | some a =>
+        let oe := if o == .sub then E.bin .sub (.num 0) rest else rest
+        if hasReg regs oe then .decline
+        else .ok { id := id, code := code.map codeField, arg := some (argField a oe .plain) }
+    else .decline
+  | .bin o₂ l₂ r₂ =>
+    -- further terms behind the first one: `[sp - 6 + 2]` — the offset is all the text behind the
+    -- register with `0` in the register's place, evaluated as one expression
+    match leftAtom (.bin o₂ l₂ r₂) with
+    | some (s, o) =>
+      if (o == .add || o == .sub) && eqIgnoreCase s r then
+        match off with
+        | none => .hard
+        | some a =>
+          let oe := zeroLeft (.bin o₂ l₂ r₂)
+          if hasReg regs oe then .decline
+          else .ok { id := id, code := code.map codeField, arg := some (argField a oe .plain) }
+      else .decline
+    | none => .decline
+  | _ => .decline
+
+
 /-- one operand type offered one operand form -/
 def accepts (regs : List String) (gz : Int × Int) (id : String) (c : OperandCfg) (f : Form) : Acc ParsedOp :=
   match c, f with
@@ -211,37 +247,11 @@ def accepts (regs : List String) (gz : Int × Int) (id : String) (c : OperandCfg
     if p == pre && q == post && eqIgnoreCase s r && !(pre == "" && post == "") then
       .ok { id := id, code := code.map codeField, arg := none } else .decline
   | .register .., _ => .decline
-  | .indReg r code off, .ind e =>
-    match e with
-    | .label s =>
-      if eqIgnoreCase s r then
-        .ok { id := id, code := code.map codeField,
-              arg := off.map fun a => argField a (.num 0) .plain }
-      else .decline
-    | .bin o (.label s) rest =>
-      if (o == .add || o == .sub) && eqIgnoreCase s r then
-        match off with
-        | none => .hard       -- "An offset was provided … when none was expected"
-        | some a =>
-          let oe := if o == .sub then E.bin .sub (.num 0) rest else rest
-          if hasReg regs oe then .decline
-          else .ok { id := id, code := code.map codeField, arg := some (argField a oe .plain) }
-      else .decline
-    | .bin o₂ l₂ r₂ =>
-      -- further terms behind the first one: `[sp - 6 + 2]` — the offset is all the text behind the
-      -- register with `0` in the register's place, evaluated as one expression
-      match leftAtom (.bin o₂ l₂ r₂) with
-      | some (s, o) =>
-        if (o == .add || o == .sub) && eqIgnoreCase s r then
-          match off with
-          | none => .hard
-          | some a =>
-            let oe := zeroLeft (.bin o₂ l₂ r₂)
-            if hasReg regs oe then .decline
-            else .ok { id := id, code := code.map codeField, arg := some (argField a oe .plain) }
-        else .decline
-      | none => .decline
-    | _ => .decline
+  | .indReg r code off pre post, .ind e =>
+    -- an operand configured with a decorator matches the decorated spelling only, and vice versa
+    if pre == "" && post == "" then acceptIndReg regs id r code off e else .decline
+  | .indReg r code off pre post, .indDeco p e q =>
+    if !(pre == "" && post == "") && p == pre && q == post then acceptIndReg regs id r code off e else .decline
   | .indReg .., _ => .decline
   | .indIdxReg r code idx, .ind (.bin .add (.label s) i) =>
     if s == r then
